@@ -294,6 +294,10 @@ func runC02(r *ev.Run) {
 		// every tenth case of each kind starts from a large index whose size sits next to a power of two (see C01)
 		if (ci/5)%10 == 7 {
 			bulk := []int{255, 256, 257, 258, 259, 511, 513, 1022, 1025}[rng.IntN(9)]
+			if kind != "hnsw" && rng.IntN(3) == 0 {
+				// the scanning kinds also at a few thousand entries (work split into blocks / chunks of 1000 or 1024)
+				bulk = []int{2047, 2050, 2900, 3001, 3999}[rng.IntN(5)]
+			}
 			nOps = 6 + rng.IntN(10)
 			for i := 0; i < bulk; i++ {
 				id, v := ids.next(), vg.fresh()
